@@ -8,10 +8,11 @@
      obs    per connection what its client observed: <<kind, tag, value>> per answered call / batch
      solo   per connection what the same script observes when it is the only connection (a real solo run)
      tags   per connection the unique argument all its calls carry
-     done   per connection: the client ran its whole script and closed without an error                            *)
+     done   per connection: the client ran its whole script and closed without an error
+     entry  the max_connections value (0 = None) that the public entry point -- serve_unix / serve_tcp with threaded=True
+            -- handed to the accept loop                                                                            *)
 EXTENDS Integers, Sequences, FiniteSets, TLC
 
-Count(ev, i, e) == Cardinality({j \in 1..i : ev[j].e = e})
 Active(ev, i) == {c \in {ev[j].c : j \in 1..i} :
                     Cardinality({j \in 1..i : ev[j].e = "ServeBegin" /\ ev[j].c = c})
                       > Cardinality({j \in 1..i : ev[j].e = "ServeEnd" /\ ev[j].c = c})}
@@ -26,7 +27,10 @@ IsoHistory(c, o) == \A x \in 1..c.n : /\ o.obs[x] = o.solo[x]
 NoDrop(c, o) == \A x \in 1..c.n : /\ o.done[x]
                                   /\ \E i \in 1..Len(o.ev) : o.ev[i].e = "ServeBegin" /\ o.ev[i].c = x
                                   /\ \E i \in 1..Len(o.ev) : o.ev[i].e = "ServeEnd" /\ o.ev[i].c = x
+\* the limit the caller asked the public entry point for is the limit the accept loop enforces
+EntryLimit(c, o) == o.entry = c.mx
 Conforms(c, o) == (IF ConcLimit(c, o) THEN {} ELSE {"ConcLimit"})
+                  \cup (IF EntryLimit(c, o) THEN {} ELSE {"EntryLimit"})
                   \cup (IF DispatchWhileServed(c, o) THEN {} ELSE {"DispatchWhileServed"})
                   \cup (IF IsoHistory(c, o) THEN {} ELSE {"IsoHistory"})
                   \cup (IF NoDrop(c, o) THEN {} ELSE {"NoDrop"})
